@@ -105,7 +105,10 @@ def same_result(rj, rp, exact):
     if isinstance(rp, MultiVector) or isinstance(rj, MultiVector):
         if not (isinstance(rp, MultiVector) and isinstance(rj, MultiVector)):
             return False, 'type'
-        if rj.layout is not rp.layout:
+        if rj.layout is not rp.layout and repr(rj.layout) != repr(rp.layout):
+            # numba interns LayoutType by the layout's full description (signature, ids, blade order, names): two Layout objects with
+            # identical descriptions share one type, and a jitted result may be attached to the twin. "Same layout" is read as "the layout
+            # with the same full description" (DESIGN §8); anything else is a different algebra or a different naming and is a violation.
             return False, 'layout'
         if kind_of(rj.value) != kind_of(rp.value):
             return False, f'dtype kind {rj.value.dtype} vs {rp.value.dtype}'
@@ -229,6 +232,85 @@ def run_wrappers(res, layouts, rng, tier):
     ob.run(res, 'overload-model')
 
 
+
+def run_power_sweep(res, layouts, rng):
+    """jitted `a ** k` for every exponent 0..16 (all bit patterns of the exponent up to five bits) on tiny operands (two
+    non-zero coefficients in {-1, 1}: every power stays far inside int64 and the exact range of binary64)"""
+    import numpy as np
+    from clifford import MultiVector
+    W = make_wrappers()
+    jf = W['pow_rt'][0]
+    ob = common.OpBatch()
+    for lname, L in layouts:
+        N = L.gaDims
+        tag = 'W_' + lname.replace('(', '_').replace(')', '').replace(',', '_')
+        for dt in ('int64', 'float64'):
+            for rep in range(2):
+                v = np.zeros(N, dtype=np.int64)
+                idx = rng.choice(N, size=2, replace=False)
+                v[idx] = rng.choice([-1, 1], size=2)
+                A = MultiVector(L, v.astype(np.dtype(dt)))
+                sa = core.mvstr(common.exact_list(A.value))
+                for k in range(0, 17):
+                    site = dict(layout=lname, sig=[int(s_) for s_ in L.sig], op='pow_sweep', dtype=dt, k=k)
+                    res.case(('pow_sweep', lname, dt, v.tolist(), k), nontrivial=True)
+                    res.count('pow_sweep')
+                    try:
+                        rj, rp = jf(A, k), jf.py_func(A, k)
+                    except Exception as e:
+                        res.violate('jitted a**k raises on a small exponent', dict(site, A=v.tolist()), repr(e)[:200], None, dict(site, kind='raise'))
+                        continue
+                    ok, why = same_result(rj, rp, exact=True)
+                    if not ok:
+                        res.violate(f'jitted a**{k} differs from the interpreter ({why})', dict(site, A=v.tolist()), rj.value.tolist(), rp.value.tolist(),
+                                    dict(site, kind=why))
+                    ob.op(tag, L, 'jpow', [str(k), sa], rj.value, nontrivial=True)
+    ob.run(res, 'overload-model-pow')
+
+
+def run_twin_layouts(res, rng):
+    """several layouts alive in one process that agree in the numbers of +, -, 0 signature entries (and in dimension) but differ in the
+    arrangement of the signature, in the blade order or only in names: every jitted operation must use the tables of ITS operand's layout"""
+    import numpy as np
+    from clifford import MultiVector
+    from harness import real
+    W = make_wrappers()
+    groups = [
+        [('S(1,1,-1)', real.make_layout([1, 1, -1])), ('S(-1,1,1)', real.make_layout([-1, 1, 1])), ('S(1,-1,1)', real.make_layout([1, -1, 1])),
+         ('S(1,1,-1)perm', real.make_layout([1, 1, -1], order=[0, 4, 2, 1, 3, 6, 5, 7])),
+         ('S(1,1,-1)ids', real.make_layout([1, 1, -1], ids=['x', 'y', 't']))],
+        [('S(0,1,1)', real.make_layout([0, 1, 1])), ('S(1,1,0)', real.make_layout([1, 1, 0]))],
+    ]
+    names = ['mul', 'or', 'xor', 'invert', 'call_lit1', 'mag2', 'gradeInvol', 'hitzer_inverse']
+    names = [n_ for n_ in names if n_ in W]
+    for grp in groups:
+        for rnd in range(2):
+            for lname, L in grp:
+                N = L.gaDims
+                for name in names:
+                    jf, kind = W[name]
+                    A = MultiVector(L, np.array(gen.int_mv(rng, N, 'dense', -3, 3), dtype=np.float64))
+                    if name == 'hitzer_inverse':
+                        A = A + 11.0
+                    B = MultiVector(L, np.array(gen.int_mv(rng, N, 'dense', -3, 3), dtype=np.float64))
+                    args = (A,) if kind == 'u' else (A, B)
+                    site = dict(layout=lname, sig=[int(s_) for s_ in L.sig], op='twin_' + name, round=rnd)
+                    res.case(('twin', lname, name, rnd, A.value.tolist(), B.value.tolist()), nontrivial=True)
+                    res.count('twin_layouts')
+                    try:
+                        rj, rp = jf(*args), jf.py_func(*args)
+                    except Exception as e:
+                        res.violate(f'jitted `{name}` raises with several same-count layouts alive', dict(site, A=A.value.tolist()), repr(e)[:200], None,
+                                    dict(site, kind='raise'))
+                        continue
+                    ok, why = same_result(rj, rp, exact=(name not in INEXACT))
+                    if ok and hasattr(rj, 'layout') and rj.layout is not L and repr(rj.layout) != repr(L):
+                        ok, why = False, 'result attached to a layout with another description'
+                    if not ok:
+                        res.violate(f'jitted `{name}` differs from the interpreter when layouts with equal (p,q,r) coexist ({why})',
+                                    dict(site, A=A.value.tolist(), B=B.value.tolist()), str(getattr(rj, 'value', rj))[:300], str(getattr(rp, 'value', rp))[:300],
+                                    dict(site, kind=why))
+
 # ---------------------------------------------------------------- the two configurations on a fixed catalogue
 
 def config_catalogue(seed):
@@ -350,6 +432,10 @@ def run_job(job, tier, seed):
             layouts += [('pga', real.predefined('pga')), ('perm', real.make_layout([1, -1, 1], order=[0, 4, 2, 1, 3, 6, 5, 7]))]
         with common.guard(res, 'jitted wrappers', {}):
             run_wrappers(res, layouts, rng, tier)
+        with common.guard(res, 'jitted power sweep', {}):
+            run_power_sweep(res, layouts, rng)
+        with common.guard(res, 'twin layouts', {}):
+            run_twin_layouts(res, rng)
     elif job == 'configs':
         run_configs(res, seed)
     else:
